@@ -40,6 +40,42 @@ func VerifC02Dispatch(strategy int, n int, clientLen int) {
 	}
 }
 
+// VerifC02Sequence: k dispatch decisions in a row from an arbitrary pool state,
+// with an arbitrary amount of time (including none) and arbitrary fresh
+// ejections (through the real MarkBackendUnhealthy) between them. Whatever the
+// earlier requests left behind (refreshed flags, cursors, anything a request
+// caches), every decision satisfies O1 and O2 against the windows as they are at
+// that moment.
+func VerifC02Sequence(strategy int, n int, k int) {
+	lb := verifBareLB(strategy)
+	bs := verifPool(lb, strategy, n, true)
+	r := verifRequest("10.1.2.3:4711")
+	for step := 0; step < k; step++ {
+		if step > 0 {
+			verifrt.Advance(time.Duration(verifrt.IntRange("dt", 0, 1<<41)))
+			for _, b := range bs {
+				if verifrt.Bool("eject") {
+					lb.MarkBackendUnhealthy(b, time.Duration(verifrt.IntRange("window", 1, 1<<40)))
+				}
+			}
+		}
+		inWin := make([]bool, n)
+		allIn := true
+		for i, b := range bs {
+			inWin[i] = verifInWindow(b)
+			allIn = verifrt.And(allIn, inWin[i])
+		}
+		got := lb.findHealthyBackend(r)
+		if got != nil {
+			i := verifIndexOf(bs, got)
+			verifrt.Assert(i >= 0, "dispatch target is a member of the pool")
+			verifrt.Assert(!inWin[i], "a dispatched-to backend is not inside an unhealthy window (request after request)")
+		} else {
+			verifrt.Assert(allIn, "503 only if every backend is inside its unhealthy window (request after request)")
+		}
+	}
+}
+
 // verifAt reads a symbolic position of a boolean vector without forking.
 func verifAt(v []bool, idx uint64) bool {
 	r := false
